@@ -51,6 +51,18 @@ def error_sink(ctx):
     ok = bool(left) and len(pops) >= 2 and all(cfg.dominates(loop_anchor(cfg, c), i) for c in pops for i in cfg.ids(left[0].test))
     ctx.check(ok, f'{init.qualname}:unknown names reported', init.node, '`if cfgdict: errors.append(...)` follows both consumption loops',
               'names left over in the configuration (unknown property / parameter) are not reported after both consumption loops', init)
+    # an accessible that is not implemented (optional) must not consume its configuration entry
+    opt = [n for n in body_walk(init.node) if isinstance(n, ast.If) and src(n.test).endswith('.optional') and any(isinstance(x, ast.Continue) for x in n.body)]
+    for c in pops:
+        loop = next((a for a in ancestors(c) if isinstance(a, ast.For)), None)
+        if loop is None or 'accessibles' not in src(loop.iter):
+            continue
+        inloop = [n for n in opt if any(a is loop for a in ancestors(n))]
+        ok = bool(inloop) and all(cfg.dominates(cfg.ids(n.test), i) for n in inloop for i in cfg.node_of(c))
+        ctx.check(ok, f'{init.qualname}:configuration consumed only for implemented accessibles', c,
+                  '`if aobj.optional: continue` precedes cfgdict.pop(aname)',
+                  'the configuration entry is popped before the optional-accessible guard: a configuration naming a parameter the class does '
+                  'not implement is silently dropped instead of being reported as unknown', init)
     # final raise
     fin = [n for n in body_walk(init.node) if isinstance(n, ast.If) and src(n.test) == 'self.errors' and n.body and isinstance(n.body[0], ast.Raise)
            and 'ConfigError' in src(n.body[0])]
@@ -174,3 +186,10 @@ def consistency_checks(ctx):
                 if (op == '<' and l.startswith('max') and r.startswith('min')) or (op == '<=' and False):
                     order = True
     ctx.check(order, f'{cp.qualname}:min<=max rule', cp.node, '`if minval > maxval: raise ConfigError`', 'inverted limits (min > max) are not rejected', cp)
+
+
+@rule('C10.R6', min_instances=3)
+def configured_writes_in_poll_thread(ctx):
+    """shared with C15.R4: configured values are written for every module of the poll thread before reads and polls"""
+    from sa.rules import c15
+    c15.poll_thread_startup(ctx)
